@@ -264,6 +264,7 @@ structure Hist where
   counter : Nat := 0
   pkts : List PR := []
   s2c : List ((Nat × Nat) × Nat) := []
+  acked : Bool := false            -- F-40 fix: set once a packet has been acknowledged as arrived
   highestAcked : Nat := 0
   nextReport : Nat := 0
 
@@ -280,6 +281,7 @@ def Hist.onAck (h : Hist) (ssrc seq : Nat) (arrived : Bool) : Hist :=
     if h.pkts.any (·.ctr = ctr) then
       { h with
         pkts := h.pkts.map fun p => if p.ctr = ctr then { p with arrived := arrived } else p
+        acked := h.acked || arrived
         highestAcked := if arrived ∧ h.highestAcked < ctr then ctr else h.highestAcked }
     else h
 
@@ -298,7 +300,7 @@ def Hist.reportLoop (h : Hist) (i : Nat) : Nat → Hist × List PR
       (h2, p :: rest)
 
 def Hist.buildReport (h : Hist) : Hist × List PR :=
-  if h.nextReport > h.highestAcked then (h, [])
+  if !h.acked || h.nextReport > h.highestAcked then (h, [])
   else Hist.reportLoop h h.nextReport (h.highestAcked - h.nextReport + 1)
 
 def ackAll (h : Hist) (ssrc begin_ : Nat) : Nat → List Nat → Hist
